@@ -18,7 +18,7 @@ pub fn def() -> PropDef {
         job_level,
         run_job,
         replay,
-        rule: "configs = every action-menu entry (≈95 list/atom actions, scaled time constants) in a layer cell and in each of 15 nesting contexts (alias, virtual key, chord v1/v2 action, tap-dance/eager item, fork l/r, switch case, multi member, tap-hold tap/hold/timeout slot, one-shot body, macro item) + every numeric token of every entry replaced by 0/1/65535 + empty-list variants; parser-rejected texts are counted and dropped. For each accepted config: ALL histories of exactly D steps over the unconstrained alphabet {press,release,repeat of a,b (no physical-consistency filter), tap, tick 1, tick 7, vkey toggle/tap via TCP path} followed by an 80-tick settle; plus flood scenarios (17..129 presses / vkey taps without a tick); plus minimal configs that use a feature without the optional block it usually comes with (sequence leader or always-on without any defseq, dynamic-macro play/stop without a recording, repeat with nothing to repeat, release of something not held, empty defsrc with deflayermap, a virtual key operating on itself) at one step deeper; plus a capacity family with one scenario family per fixed-capacity structure (9..16 layer-while-held keys held at once in three layer arrangements, one-shot chords of 8 key codes feeding the 20-slot repeat buffer, 1..5 keys of 18 key codes each against the 64-slot state vector, switch with 6..12 fall-through cases against the 8-slot action queue, v1 chord decomposition of 3..8 keys, tap-dance with a 20-item list and up to 25 taps, 7..10 tap-hold keys pending at once). Oracle: no panic (dev-profile semantics: overflow + debug_assert panic), no step > 2 s. non-trivial = distinct (config, state digest) nodes; outcome classes = accepted/rejected/per-context.",
+        rule: "configs = every action-menu entry (≈95 list/atom actions, scaled time constants) in a layer cell and in each of 15 nesting contexts (alias, virtual key, chord v1/v2 action, tap-dance/eager item, fork l/r, switch case, multi member, tap-hold tap/hold/timeout slot, one-shot body, macro item) + every numeric token of every entry replaced by 0/1/65535 + empty-list variants; parser-rejected texts are counted and dropped. For each accepted config: ALL histories of exactly D steps over the unconstrained alphabet {press,release,repeat of a,b (no physical-consistency filter), tap, tick 1, tick 7, vkey toggle/tap via TCP path} followed by an 80-tick settle; plus flood scenarios (17..129 presses / vkey taps without a tick); plus minimal configs that use a feature without the optional block it usually comes with (sequence leader or always-on without any defseq, dynamic-macro play/stop without a recording, repeat with nothing to repeat, release of something not held, empty defsrc with deflayermap, a virtual key operating on itself) at one step deeper; plus a capacity family with one scenario family per fixed-capacity structure (9..16 layer-while-held keys held at once in three layer arrangements, one-shot chords of 8 key codes feeding the 20-slot repeat buffer, 1..5 keys of 18 key codes each against the 64-slot state vector, switch with 6..12 fall-through cases against the 8-slot action queue, v1 chord decomposition of 3..8 keys, switch conditions nesting 6..12 boolean operators in five patterns (rejected texts dropped), tap-dance with a 20-item list and up to 25 taps, 7..10 tap-hold keys pending at once). Oracle: no panic (dev-profile semantics: overflow + debug_assert panic), no step > 2 s. non-trivial = distinct (config, state digest) nodes; outcome classes = accepted/rejected/per-context.",
         assumptions: &[
             "dev-profile arithmetic (overflow-checks, debug-assertions) as in the pinned test-suite",
             "clipboard and cmd actions excluded (need OS services / feature off)",
@@ -411,6 +411,25 @@ fn capacity_scenarios() -> Vec<(String, String, Vec<Vec<Ev>>)> {
             }
         }
         v.push(("action-queue/v1-chord-decomposition".to_string(), cfg, hs));
+    }
+    // (7b) boolean nesting in switch: chains of 6..12 operators in several patterns (the evaluator's stack
+    //      holds 8 frames; the parser must reject what the evaluator cannot hold)
+    for depth in 6..=12usize {
+        for (pn, pat) in [("not", vec!["not"]), ("or", vec!["or"]), ("or-not", vec!["or", "not"]), ("and-not", vec!["and", "not"]), ("not-not-or", vec!["not", "not", "or"])] {
+            let mut expr = String::from("b");
+            for i in 0..depth {
+                let op = pat[(depth - 1 - i) % pat.len()];
+                expr = format!("({op} {expr})");
+            }
+            let cfg = format!("(defcfg)\n(defsrc a b)\n(deflayer base (switch ({expr}) x break () y break) b)\n");
+            let mut h = taps(&["a"], 2);
+            h.push(Ev::P(kc("b")));
+            h.push(Ev::T(1));
+            h.extend(taps(&["a"], 2));
+            h.push(Ev::R(kc("b")));
+            h.push(Ev::T(20));
+            v.push((format!("bool-depth/{pn}-{depth}"), cfg, vec![h]));
+        }
     }
     // (8) tap-dance with a 20-item list, 1..25 taps; eager and lazy
     for eager in [false, true] {
